@@ -282,13 +282,50 @@ class SymStr:
                 return True
         return False
 
-    def find(self, p):
+    def _bounds(self, start, end):
+        n = len(self.cs)
+        a, b, _ = slice(start, end).indices(n)
+        return a, b
+
+    def find(self, p, start=None, end=None):
         pc = _chars(p)
         m = len(pc)
-        for i in range(0, len(self.cs) - m + 1):
+        a, b = self._bounds(start, end)
+        for i in range(a, b - m + 1):
             if SymStr(self.cs[i:i + m]) == SymStr(pc):
                 return i
         return -1
+
+    def rfind(self, p, start=None, end=None):
+        pc = _chars(p)
+        m = len(pc)
+        a, b = self._bounds(start, end)
+        for i in range(b - m, a - 1, -1):
+            if SymStr(self.cs[i:i + m]) == SymStr(pc):
+                return i
+        return -1
+
+    def index(self, p, start=None, end=None):
+        i = self.find(p, start, end)
+        if i < 0:
+            raise ValueError("substring not found")
+        return i
+
+    def count(self, p, start=None, end=None):
+        pc = _chars(p)
+        m = len(pc)
+        if m == 0:
+            raise Unsupported("count of the empty string")
+        a, b = self._bounds(start, end)
+        n = 0
+        i = a
+        while i <= b - m:
+            if SymStr(self.cs[i:i + m]) == SymStr(pc):
+                n += 1
+                i += m
+            else:
+                i += 1
+        return n
 
     def isdigit(self):
         if not self.cs:
